@@ -787,6 +787,13 @@ def install(ex):
         g = ex.load(args[0])
         yield g if isinstance(g, Ref) else Ref(Cell(g))
 
+    @model(r"^<dyn Deref<.*> as Deref>::deref$", "dyn Deref (Box<dyn Deref<Target=Vec<T>>> of ValueReference::as_ref): the boxed &Vec / Ref<Vec> guard")
+    def dyn_deref(ex, callee, args, rt):
+        g = ex.load(args[0]) if isinstance(args[0], Ref) else args[0]
+        while isinstance(g, Ref) and isinstance(ex.load(g), Ref):
+            g = ex.load(g)
+        yield g if isinstance(g, Ref) else Ref(Cell(g))
+
     @model(r"^(cell::|std::cell::|core::cell::)?(Ref|RefMut)::(<.*>::)?map$", "Ref::map / RefMut::map = closure applied to the guarded reference")
     def guard_map(ex, callee, args, rt):
         g, f = args
